@@ -3,6 +3,7 @@ import ast
 import re
 import copy
 
+from sa.callgraph import bind_args
 from sa.loader import AnalysisError, norm, walk_local
 from sa.cfg import cfg_of
 from sa.pathsum import summaries
@@ -290,3 +291,22 @@ def run(ctx):
 
 
     ctx.borrow("C10", {"C10.R2": "C09.R9"}, "an un-hinted value is written under the first branch validate accepts: a container validator that accepts without consulting every element makes the writer pick a branch the value does not conform to", only=lambda o: any(k in o.get("instance", "") for k in ("_validate_array", "_validate_map", "_validate_record", "_validate_union", "_validate:")))
+
+    # ---- R10 the reader options reach every nested read --------------------------------------------------------
+    ctx.rule("C09.R10", "every nested read (read_data from read_data and from the readers of the READERS table) is given the caller's own options: the options decide whether a named branch comes back as (name, value)", floor=6)
+    rd = p.func("_read_py:read_data")
+    opt_pos = len(rd.pos_params) - 1
+    callers = [rd] + [f for k in sorted(a.readers.keys()) for f in a.readers.funcs(k)]
+    seen_f = set()
+    for f in callers:
+        if f.id in seen_f:
+            continue
+        seen_f.add(f.id)
+        own = f.pos_params[-1] if f.pos_params else None
+        for c in ast.walk(f.node):
+            if not (isinstance(c, ast.Call) and isinstance(c.func, ast.Name) and p.resolve_func(f.mod, c.func) is rd):
+                continue
+            b = bind_args(rd, c)
+            got = b.get(rd.pos_params[opt_pos])
+            ok = isinstance(got, ast.Name) and got.id == own and own in f.params
+            ctx.check("C09.R10", f"{f.qualname}: nested read_data receives `{own}`", ok, f.where(c), f"{f.qualname}: {norm(c)[:110]}", "a nested value is read with the default options: with return_named_type / return_record_name set, a union inside it comes back as a bare value, which written back selects a different branch")
